@@ -30,6 +30,10 @@ LEVEL = "exploration"
 PY = "/venv/bin/python"
 SCRATCH = f"/tmp/c20/run-{os.getpid()}"  # cwd and HOME of the subprocesses; removed when the run ends
 ERR_KEEP = 1500
+# The names bound with --arg also exist in the process environment of every driven main() (in-process and subprocess):
+# an explicit value, even an empty one, must win; the documented value-less forms read these.
+ENV_VARS = {"x": "fromenv", "y": "7"}
+os.environ.update(ENV_VARS)
 _ADDR = re.compile(r"0x[0-9a-fA-F]+")
 
 # ---------------------------------------------------------------------------------------------
@@ -139,8 +143,8 @@ def tok_cardinality(tier):
     return total - overlap
 
 
-DOCS = ['{"x": true}', '{"x": false}', '{"x": 1}', '{"y": 1}', "[1]", "not json", "", '{"x": "é"}', '{"x": 1.0}']   # 1.0 == True == 1 in Python: value-keyed caches collide
-TWO_LINE = ['{"x":\n true}', '{"x":\n false}', '{"x":\n 1}', '{"y":\n 1}', "[\n1]", "not\njson", "\n", '{"x":\n "é"}', '{"x":\n 1.0}']
+DOCS = ['{"x": true}', '{"x": false}', '{"x": 1}', '{"y": 1}', "[1]", "not json", "", '{"x": "é"}', '{"x": 1.0}', '{"x": "a\u2028b"}']   # 1.0 == True == 1 in Python: value-keyed caches collide
+TWO_LINE = ['{"x":\n true}', '{"x":\n false}', '{"x":\n 1}', '{"y":\n 1}', "[\n1]", "not\njson", "\n", '{"x":\n "é"}', '{"x":\n 1.0}', '{"x":\n "a\u2028b"}']
 OPTSETS = [([], "jq"), (["-b"], "jq"), (["-p", "pk"], "pk"), (["-d", "d"], "d"), (["-b", "-d", "d"], "d")]
 DOC_EXPRS = [".x", ".x == true", ".x > 0", "{var}.x"]
 CONFIGS = [(opts, var, e.format(var=var)) for opts, var in OPTSETS for e in DOC_EXPRS]
@@ -194,6 +198,11 @@ def _build_cases(tier):
     cases.append({"group": "arg", "mode": "null", "boolean": False, "argv": ["-n", "-a", "x:int=1", "-a", "y:int=2", "x + y"], "stdin": "",
                   "api": {"pinned": [0, ["json", 3]]}})
     cases.append({"group": "arg", "mode": "null", "boolean": False, "argv": ["-n", "-a", "x:nope=1", "x"], "stdin": "", "api": {"pinned": None}})
+    # the documented value-less forms read the environment (ENV_VARS); an explicit empty value does not
+    cases.append({"group": "arg", "mode": "null", "boolean": False, "argv": ["-n", "-a", "x", "x"], "stdin": "", "api": {"pinned": [0, ["json", ENV_VARS["x"]]]}})
+    cases.append({"group": "arg", "mode": "null", "boolean": False, "argv": ["-n", "-a", "x:string", "x"], "stdin": "", "api": {"pinned": [0, ["json", ENV_VARS["x"]]]}})
+    cases.append({"group": "arg", "mode": "null", "boolean": False, "argv": ["-n", "-a", "y:int", "y + 1"], "stdin": "", "api": {"pinned": [0, ["json", int(ENV_VARS["y"]) + 1]]}})
+    cases.append({"group": "arg", "mode": "null", "boolean": False, "argv": ["-n", "-a", "x:string=", "-a", "y=", "[x, y]"], "stdin": "", "api": {"pinned": [0, ["json", ["", ""]]]}})
     for ci, cfg in enumerate(CONFIGS):
         opts, var, expr = cfg
         for di, d in enumerate(DOCS):
@@ -210,7 +219,7 @@ def cases_cardinality(tier):
     n_tok2 = len(TOKENS) + len(TOKENS) ** 2 - sum(1 for e in set(n_exprs(tier)) if len(e.split(" ")) <= 2 and all(p in TOKENS for p in e.split(" ")))
     return {"n-expressions": n_exprs_cardinality(tier) * 2,
             "token-strings": tok_cardinality(tier) * 2 + n_tok2,
-            "arg-bindings": len(cli.ARG_TYPES) * (2 * 3 + 1) + 4,
+            "arg-bindings": len(cli.ARG_TYPES) * (2 * 3 + 1) + 8,
             "single-documents": len(CONFIGS) * len(DOCS),
             "slurp-documents": len(CONFIGS) * len(DOCS) * 2}
 
@@ -602,7 +611,7 @@ def stream_shard(task):
 def run_subprocess(argv, stdin_text):
     os.makedirs(SCRATCH, exist_ok=True)
     env = {"PATH": os.environ.get("PATH", "/usr/bin:/bin"), "PYTHONPATH": repo.SRC, "HOME": SCRATCH, "PYTHONHASHSEED": "0", "PYTHONDONTWRITEBYTECODE": "1",
-           "PYTHONUTF8": "1", "COLUMNS": "80", "LANG": "C.UTF-8"}
+           "PYTHONUTF8": "1", "COLUMNS": "80", "LANG": "C.UTF-8", **ENV_VARS}
     try:
         p = subprocess.run([PY, "-m", "celpy"] + list(argv), input=stdin_text.encode("utf-8"), stdout=subprocess.PIPE, stderr=subprocess.PIPE,
                            env=env, cwd=SCRATCH, timeout=300)
@@ -696,9 +705,9 @@ def validate_model():
         e = n_exprs(tier)
         if len(e) != len(set(e)) or len(e) != n_exprs_cardinality(tier):
             raise runner.HarnessError(f"-n expression list ({tier}): {len(e)} generated, {len(set(e))} distinct, cardinality {n_exprs_cardinality(tier)}")
-    if [cli.doc_kind(d) for d in DOCS] != ["ok", "ok", "ok", "ok", "ok", "malformed", "empty", "ok", "ok"]:
+    if [cli.doc_kind(d) for d in DOCS] != ["ok", "ok", "ok", "ok", "ok", "malformed", "empty", "ok", "ok", "ok"]:
         raise runner.HarnessError("document alphabet kinds")
-    if [cli.doc_kind(d) for d in TWO_LINE] != ["ok", "ok", "ok", "ok", "ok", "malformed", "empty", "ok", "ok"]:
+    if [cli.doc_kind(d) for d in TWO_LINE] != ["ok", "ok", "ok", "ok", "ok", "malformed", "empty", "ok", "ok", "ok"]:
         raise runner.HarnessError("two-line document kinds")
     if any(json.loads(a) != json.loads(b) for a, b in zip(DOCS, TWO_LINE) if cli.doc_kind(a) == "ok"):
         raise runner.HarnessError("two-line spellings denote different documents")
@@ -716,7 +725,7 @@ def run(ctx):
                 "the concatenation / max of its one-document runs. Non-trivial: the model is not UNSPEC for the case (streams: length >= 2); UNSPEC: evaluation "
                 "errors under -n without -b, non-bool or error under -b outside -n, empty lines, values without a C20-specified JSON text under -n, illegal --arg texts, stream length <= 1; "
                 "a well-formed document on which the expression errs must still yield exactly one output line (content free)")
-    ctx.assumptions = ["only the interpreted runner (the CLI has no other)", "-i, -f, -v, stat() and --arg values read from the environment are not explored",
+    ctx.assumptions = ["only the interpreted runner (the CLI has no other)", "-i, -f, -v and stat() are not explored; --arg values read from the environment only for two names",
                        "an expression starting with '-' is passed after '--' (argparse convention)",
                        "whether a text is a syntax error, and the value of an expression, are taken from the library API (Environment.compile/program/evaluate): C20 relates the CLI to that result",
                        "stderr is compared only for the position of a syntax error; logging output is disabled in process (mc.repo)",
